@@ -46,7 +46,7 @@ def make_case(seed: int, tier: str, prop: str, opts=None) -> Dict[str, Any]:
         sc = gen.gen_core(seed, tier, transport_mix="mixed", max_sims=4)
         if len(sc["sims"]) < 2:
             sc = gen.gen_core(h64(seed, "again"), tier, transport_mix="mixed", max_sims=4)
-    sc["config"]["debug"] = False
+    sc["config"]["debug"] = rng.random() < 0.12      # (debug mode must not change fault handling)
     sc["config"]["iteration_cost"] = 0.0
     sc["until"] = min(sc["until"], 5)
     # at least one remote simulator in most cases
